@@ -964,7 +964,7 @@ func forStatusConst(c *Ctx, k int64, f func(fn *ssa.Function, at *ssa.BasicBlock
 // a generation compared unequal.
 func ruleStale(c *Ctx, id string) {
 	V, P, R := c.V, c.P, c.R
-	R.Rule(id, "NFS3ERR_STALE is produced only where a client handle failed to resolve: every place where the constant flows into a status is reached only through 'GetInodeFh(...) == nil', 'lockInodes(<numbers of decoded handles>) == nil' or a generation mismatch", 10)
+	R.Rule(id, "NFS3ERR_STALE is produced only where a client handle failed to resolve: every place where the constant flows into a status is reached only through 'GetInodeFh(...) == nil', 'lockInodes(<numbers of decoded handles>) == nil' or a generation mismatch", 8)
 	stale := constOfPkg(P, "nfstypes", "NFS3ERR_STALE")
 	twoInums := P.Func("nfs.twoInums")
 	fromHandleLock := func(v ssa.Value) bool {
